@@ -119,7 +119,7 @@ def tablerowObj (i len col : Nat) (colsI : Int) : V :=
         ("rindex0".toList, iV (len - i - 1)), ("rindex".toList, iV (len - i)),
         ("first".toList, bV (i == 0)), ("last".toList, bV last),
         ("col0".toList, iV col), ("col".toList, iV (col + 1)),
-        ("col_first".toList, bV (col == 0)), ("col_last".toList, bV (col == colsI - 1 || last))]
+        ("col_first".toList, bV (col == 0)), ("col_last".toList, bV (col + 1 == colsI || last))]
 
 def usizeAsI64 (n : Nat) : Int := if n < 2^63 then n else (n : Int) - 2^64
 
@@ -307,9 +307,8 @@ def tablerowStep (x : Str) (len ncols : Nat) (body : M Unit) (v : V) (i : Nat) :
   let col := i % ncols
   let row := i / ncols
   let colsI := usizeAsI64 ncols
-  if !inI64 (colsI - 1) then M.lift (.panic "tablerow: cols - 1 overflow") else
   let tr := tablerowObj i len col colsI
-  let colLast := ((col : Int) == colsI - 1) || ((i : Int) == (len : Int) - 1)
+  let colLast := ((col : Int) + 1 == colsI) || ((i : Int) == (len : Int) - 1)
   let root := objInsert (objInsert [] "tablerow".toList tr) x v
   do
     if col == 0 then M.emit ("<tr class=\"row".toList ++ natDigits (row + 1) ++ "\">".toList) else pure ()
@@ -409,6 +408,7 @@ def renderN : Nat → Env → Node → M Unit
     let st ← M.getSt
     let arr ← M.lift (rng.eval st)
     let c ← M.lift (evalAttr st cols)
+    if c == some 0 then M.lift .err else do     -- "`cols` must be greater than zero"
     let lim ← M.lift (evalAttr st limit)
     let off ← M.lift (evalAttr st offset)
     let items := iterArray arr lim (off.getD 0) false
